@@ -62,14 +62,17 @@ def check(ctx):
             ctx.missing("R1", f"rhs:{kind}", (FILE, m.func.lineno), f"no RHS site of kind `{kind}` found; see C01")
             continue
         used = set()
+        # Jacobian stores whose term could not be reconstructed (text pasted from a value built elsewhere) may be the missing
+        # partners: then the pairing is undecided, not violated
+        opaque_sites = [x for x in m.sites if x.array == "jacrhs" and x.kind == "other" and any(p_[0] == "unrec" for p_ in x.problems)]
         for rs in r:
             cands = [x for x in j if rowkey(x) == rowkey(rs)]
             if len(cands) != 1:
-                (ctx.bad if True else ctx.missing)(
+                (ctx.unrec if (not cands and opaque_sites) else ctx.bad)(
                     "R1", f"jacrhs:{kind}:count", where(rs),
                     f"the `{kind}` RHS term at line {rs.line} has {len(cands)} Jacobian sites with the same row domain and conditions, expected exactly one"
                     + (f" (Jacobian `{kind}` sites at lines {[x.line for x in j]} differ in row domain or guard)" if j else ""),
-                    expected=f"one jacrhs store for rows {show(rs.rowbase or rs.row)[:80]}", found=f"{len(cands)}")
+                    **({} if (not cands and opaque_sites) else dict(expected=f"one jacrhs store for rows {show(rs.rowbase or rs.row)[:80]}", found=f"{len(cands)}")))
             for x in cands:
                 used.add(id(x))
                 _pair(ctx, m, kind, rs, x)
